@@ -228,7 +228,8 @@ def files_job(job) -> dict:
                 else:
                     out = ObservationOutputs(output_folder=parent, save_data_to_file=save)
                     o, det, pipe, targets, tmp, msg = obs.build(job["ocfg"], job.get("variant", 0), outputs=out,
-                                                                delay=job.get("delay", 0.0))
+                                                                delay=job.get("delay", 0.0),
+                                                                img=any("image" in k for d in save for k in d))
                     dkw = {"scheduler": job["scheduler"]} if job.get("scheduler") else {}
                     if job.get("workers"):
                         dkw["num_workers"] = job["workers"]
@@ -263,7 +264,13 @@ def files_job(job) -> dict:
                                 path = own / name
                             exists = path.exists()
                             content = _read(path) if exists else None
-                            same = True if (content is None and exists) else (exists and _same(content, data))
+                            if b == "image" and content is not None:
+                                # the merged tree of an observation may hold the image as floats; the FILE must hold the
+                                # detector's unsigned integers with the values of its run
+                                same = bool(np.asarray(content).dtype.kind == "u" and np.asarray(content).shape == np.asarray(data).shape
+                                            and np.array_equal(np.asarray(content, dtype=float), np.asarray(data, dtype=float)))
+                            else:
+                                same = True if (content is None and exists) else (exists and _same(content, data))
                             events.append({"e": "reported", "p": p, "run": run, "bucket": b, "fmt": str(fmt),
                                            "path": str(path.relative_to(parent)) if str(path).startswith(str(parent)) else str(path),
                                            "indir": path.parent == own, "exists": bool(exists), "same": bool(same)})
